@@ -124,7 +124,8 @@ def execute_run(run, scdir, idx, note_fd, out_name="out.pqr", outdir=None, use_m
     net = seams.NetSeam(net_script, paths.get("net_body", b""))
     code_faults = [f for f in faults if f["k"] in ("exc", "kill", "stage")]
     need_lines = bool(run.get("profile")) or any(
-        f["k"] in ("exc", "kill") and f.get("event") != "PY_START" for f in code_faults) or any(
+        f["k"] in ("exc", "kill") and f.get("event") not in ("PY_START", "FOREIGN")
+        for f in code_faults) or any(
         f["k"] == "stage" and f["when"] == "return" for f in code_faults)
     if use_monitor or code_faults or run.get("profile"):
         mon = monitor.RunMonitor(pkg, seam, code_faults, record_lines=bool(run.get("profile")),
@@ -197,9 +198,12 @@ def execute_run(run, scdir, idx, note_fd, out_name="out.pqr", outdir=None, use_m
     return obs
 
 
-def _child_reference(note_fd, cfg, scdir):
-    """Fault-free run of cfg from an absent output path (pristine world)."""
-    obs = execute_run({"cfg": cfg, "profile": False}, scdir, 0, note_fd)
+def _child_reference(note_fd, cfg, scdir, data_faults=None):
+    """Reference run of cfg from an absent output path (pristine world): no injected
+    failure; `data_faults` (corrupt built-in data files) belong to the *situation* whose
+    fault-free behaviour is the reference, like corrupt input bytes do."""
+    obs = execute_run({"cfg": cfg, "profile": False, "faults": data_faults or []}, scdir, 0,
+                      note_fd)
     data = runner.read_bytes(obs["paths"]["output"])
     if data is not None:
         with open(os.path.join(scdir, "R.bin"), "wb") as fh:
@@ -228,14 +232,16 @@ class Refs:
         self.cache = {}
         self.n = 0
 
-    def get(self, cfg):
+    def get(self, cfg, data_faults=None):
         key = corpus.cfg_key(cfg)
+        if data_faults:
+            key += "|" + json.dumps(data_faults, sort_keys=True)
         if key in self.cache:
             return self.cache[key]
         self.n += 1
         scdir = os.path.join(self.scratch, f"ref-{self.n}")
         os.makedirs(scdir, exist_ok=True)
-        cr = forkrun.forked(_child_reference, cfg, scdir, timeout=120)
+        cr = forkrun.forked(_child_reference, cfg, scdir, data_faults, timeout=120)
         fin = cr.final()
         if fin is None:
             raise RuntimeError(f"reference run died: {cr.error()} status={cr.status}")
@@ -408,7 +414,8 @@ def run_scenario(sc, scdir, refs):
         bpath = os.path.join(scdir, f"before-{i}.bin")
         before = (runner.read_bytes(bpath) if begins[i]["before_exists"] else None,
                   begins[i]["before_stat"])
-        ref = refs.get(run["cfg"]) if run.get("want_ref", True) else None
+        data_faults = [f for f in (run.get("faults") or []) if f["k"] == "data"]
+        ref = refs.get(run["cfg"], data_faults) if run.get("want_ref", True) else None
         if i in ends:
             obs = ends[i]["obs"]
             apath = os.path.join(scdir, f"after-{i}.bin")
@@ -531,9 +538,16 @@ def build_scenarios(cfg, prof, seed, tier, prev_cfg):
     for df in datfiles:
         for s in ({"kind": "short", "at": 0}, {"kind": "short", "at": 2000},
                   {"kind": "garble", "at": rng.randrange(4000)}, {"kind": "html"}):
-            add("content-data", [{"cfg": cfg, "want_ref": False,
+            add("content-data", [{"cfg": cfg,
                                   "faults": [{"k": "data", "file": df, "fault": s}]}])
     # --- 4. the write window and what follows it
+    # directed: the first call into any other repository function made while the output
+    # is open (fires only if such a call exists, i.e. computation is interleaved with writing)
+    add("foreign-in-window", [{"cfg": cfg, "faults": [{"k": "exc", "event": "FOREIGN",
+                                                      "exc": "MemoryError"}]}],
+        pre={"run": prev_cfg})
+    add("foreign-in-window", [{"cfg": cfg, "faults": [{"k": "kill", "event": "FOREIGN"}]}],
+        pre="sentinel")
     lo, hi = P["window_line_range"]
     if lo is not None:
         pts = sorted({lo, lo + 1, (lo + hi) // 2, hi - 1, hi})
@@ -738,8 +752,12 @@ def job_cfg(job, scratch):
                 locs.add(f"{f['kind']}|{f['path']}")
         for k, val in res["notes"].items():
             out["notes"][k] = out["notes"].get(k, 0) + val
-        if out["sample"] is None and sc["tag"] == "random":
-            out["sample"] = {"scenario": sc, "outcomes": res["outcomes"]}
+        if out["sample"] is None and sc["tag"] == "random" and res["fired"]:
+            out["sample"] = {"scenario": sc, "outcomes": res["outcomes"],
+                             "fired": [{k: f.get(k) for k in ("k", "kind", "exc", "file", "qualname",
+                                                              "line", "step", "in_window",
+                                                              "after_window", "path")
+                                        if f.get(k) is not None} for f in res["fired"]]}
         if res["violation"]:
             small = _shrink_scenario(sc, os.path.join(scratch, f"shrink-{i}"), refs,
                                      res["violation"]["kind"])
